@@ -23,7 +23,11 @@ nothing here: the model in property mode is compared with the code under test, a
 outputs of bench-style circuits the output fork of a flip-flop (tags `name-clash:*`).
 **Hypotheses.**  `hnd` (the target rows of one call are pairwise different) is evaluated by the driver (`stil hnd`) on every case's
 real parse result (tags `hyp:hnd:*`, together with "interface names pairwise different"); a well-formed generated case outside it
-is a broken tie.  `hp : (extract fl)[i]? = some p` — `Stil.extract` (pattern assembly from the call list, stil.py:28-56): since the audit
+is a broken tie.  `hports : fl.portsOK = true` (audit 2, A-C18-1; decidable: the scan-in port names of the chains are pairwise different, and so
+are the scan-out port names): the model walks the chain LIST, stil.py walks dictionaries keyed by port (`si_ports`, `scan_maps[chain[0]]`),
+which keep the LAST chain of a port — with a shared port `hnd` still holds and the conclusion of `load_pos` is false for the code
+(`shared_scan_port_outside`: the auditor's witness is outside `portsOK`); every positional / launch-on-capture theorem carries `hports`,
+`stil hnd` answers it (`ports=`) and a well-formed generated case with `ports=false` is a broken tie.  `hp : (extract fl)[i]? = some p` — `Stil.extract` (pattern assembly from the call list, stil.py:28-56): since the audit
 follow-up the section "pattern assembly" at the end proves what it yields on call lists of the shape ATPG tools (and the generator)
 write — `extract_blocks`, `extract_count`, `extract_pattern`; for ARBITRARY call lists (a `load_unload` without capture, two captures
 in a row, calls of other names) it has no theorem: what it guarantees there (pattern `i` = the load of the `i`-th `load_unload` that is followed by a capture, the
@@ -131,6 +135,7 @@ theorem load_pos (c : Circ) (fl : File) (M : List (List V3)) (i : Nat) (p : Pat)
     (hok : tests .spec c fl = .ok M) (hp : (extract fl)[i]? = some p)
     (hch : ch ∈ fl.chains) (hmid : ch.mid = pre ++ x :: post) (hx : isMark x = false) (hxin : x ∈ c.sNodes)
     (hnd : ((mapsPure .spec c fl).scanRows ++ (mapsPure .spec c fl).pi).Nodup)
+    (hports : fl.portsOK = true)
     (hs : p.load.lookup ch.si = some s) (hcj : s[(cellsOf post).length]? = some cj) :
     ∃ col, M[i]? = some col ∧ c.sNodes[c.cellRow x]? = some x ∧
       col[c.cellRow x]? = some (invLoad (odd (markers pre)) (interp cj)) := by
@@ -151,6 +156,7 @@ theorem unload_pos (c : Circ) (fl : File) (M : List (List V3)) (i : Nat) (p : Pa
     (hok : responses .spec c fl = .ok M) (hp : (extract fl)[i]? = some p)
     (hch : ch ∈ fl.chains) (hmid : ch.mid = pre ++ x :: post) (hx : isMark x = false) (hxin : x ∈ c.sNodes)
     (hnd : ((mapsPure .spec c fl).po ++ (mapsPure .spec c fl).scanRows).Nodup)
+    (hports : fl.portsOK = true)
     (hs : p.unload.lookup ch.so = some s) (hcj : s[(cellsOf post).length]? = some cj) :
     ∃ col, M[i]? = some col ∧ c.sNodes[c.cellRow x]? = some x ∧
       col[c.cellRow x]? = some (xorInv (odd (markers post)) (interp cj)) := by
@@ -171,6 +177,7 @@ theorem pi_po_map (c : Circ) (fl : File) (M : List (List V3)) (i : Nat) (p : Pat
     (hok : tests .spec c fl = .ok M) (hp : (extract fl)[i]? = some p)
     (hk : (group fl "_pi")[k]? = some x) (hxin : x ∈ c.sNodes)
     (hnd : ((mapsPure .spec c fl).scanRows ++ (mapsPure .spec c fl).pi).Nodup)
+    (hports : fl.portsOK = true)
     (hs : p.capture.lookup "_pi" = some s) (hck : s[k]? = some ck) :
     ∃ col, M[i]? = some col ∧ c.sNodes[c.portRow x]? = some x ∧
       col[c.portRow x]? = some (interp ck) := by
@@ -192,6 +199,7 @@ theorem po_map (c : Circ) (fl : File) (M : List (List V3)) (i : Nat) (p : Pat) (
     (hok : responses .spec c fl = .ok M) (hp : (extract fl)[i]? = some p)
     (hk : (group fl "_po")[k]? = some x) (hxin : x ∈ c.sNodes)
     (hnd : ((mapsPure .spec c fl).po ++ (mapsPure .spec c fl).scanRows).Nodup)
+    (hports : fl.portsOK = true)
     (hcap : p.capture.length > 0) (hs : p.capture.lookup "_po" = some s) (hck : s[k]? = some ck) :
     ∃ col, M[i]? = some col ∧ c.sNodes[c.portRow x]? = some x ∧
       col[c.portRow x]? = some (interp ck) := by
@@ -305,6 +313,7 @@ theorem loc_transition (c : Circ) (fl : File) (nxt M : List (List V3)) (i : Nat)
     (hok : testsLoc .spec c fl nxt = .ok M) (hp : (extract fl)[i]? = some p) (hn : nxt[i]? = some nx)
     (hch : ch ∈ fl.chains) (hmid : ch.mid = pre ++ x :: post) (hx : isMark x = false) (hxin : x ∈ c.sNodes)
     (hnd : ((mapsPure .spec c fl).scanRows ++ (mapsPure .spec c fl).pi ++ (mapsPure .spec c fl).po).Nodup)
+    (hports : fl.portsOK = true)
     (hs : p.load.lookup ch.si = some s) (hcj : s[(cellsOf post).length]? = some cj) :
     ∃ col, M[i]? = some col ∧ c.sNodes[c.cellRow x]? = some x ∧
       col[c.cellRow x]? = some (mvTransition (invLoad (odd (markers pre)) (interp cj))
@@ -359,6 +368,7 @@ theorem loc_transition_input (c : Circ) (fl : File) (nxt M : List (List V3)) (i 
     (hok : testsLoc .spec c fl nxt = .ok M) (hp : (extract fl)[i]? = some p) (hn : nxt[i]? = some nx)
     (hk : (group fl "_pi")[k]? = some x) (hxin : x ∈ c.sNodes)
     (hnd : ((mapsPure .spec c fl).scanRows ++ (mapsPure .spec c fl).pi ++ (mapsPure .spec c fl).po).Nodup)
+    (hports : fl.portsOK = true)
     (hci : (initPiStr p)[k]? = some ci) (hcc : capturePulse p = true → (str p.capture "_pi")[k]? = some cc) :
     ∃ col, M[i]? = some col ∧ c.sNodes[c.portRow x]? = some x ∧
       col[c.portRow x]? = some (mvTransition (interp ci)
@@ -441,6 +451,7 @@ theorem loc_assignment_state (c : Circ) (fl : File) (net : Net) (names : List St
     (hcompat : compatB c net names = true)
     (hch : ch ∈ fl.chains) (hmid : ch.mid = pre ++ x :: post) (hx : isMark x = false) (hxin : x ∈ c.sNodes)
     (hnd : ((mapsPure .spec c fl).scanRows ++ (mapsPure .spec c fl).pi).Nodup)
+    (hports : fl.portsOK = true)
     (hs : p.load.lookup ch.si = some s) (hcj : s[(cellsOf post).length]? = some cj) :
     envOf net (initCol (mapsPure .spec c fl) p) (net.idx.ppi + c.cellRow x) =
       invLoad (odd (markers pre)) (interp cj) := by
@@ -461,6 +472,7 @@ theorem loc_assignment_input (c : Circ) (fl : File) (net : Net) (names : List St
     (k : Nat) (x : String) (ci : Char) (hcompat : compatB c net names = true)
     (hk : (group fl "_pi")[k]? = some x) (hxin : x ∈ c.sNodes)
     (hnd : ((mapsPure .spec c fl).scanRows ++ (mapsPure .spec c fl).pi).Nodup)
+    (hports : fl.portsOK = true)
     (hci : (initPiStr p)[k]? = some ci) :
     envOf net (initCol (mapsPure .spec c fl) p) (net.idx.ppi + c.portRow x) = interp ci := by
   obtain ⟨n, _, _, hlt⟩ := row_node_port hcompat hxin
@@ -498,13 +510,14 @@ theorem tests_loc_rows (c : Circ) (fl : File) (net : Net) (names : List String) 
     (hok : testsLoc .spec c fl (nxtOf c fl net order) = .ok M) (hp : (extract fl)[i]? = some p)
     (hch : ch ∈ fl.chains) (hmid : ch.mid = pre ++ x :: post) (hx : isMark x = false) (hxin : x ∈ c.sNodes)
     (hnd : ((mapsPure .spec c fl).scanRows ++ (mapsPure .spec c fl).pi ++ (mapsPure .spec c fl).po).Nodup)
+    (hports : fl.portsOK = true)
     (hs : p.load.lookup ch.si = some s) (hcj : s[(cellsOf post).length]? = some cj) :
     ∃ col, M[i]? = some col ∧ c.sNodes[c.cellRow x]? = some x ∧
       col[c.cellRow x]? = some (mvTransition (invLoad (odd (markers pre)) (interp cj))
         (if noLaunchPulse p then xorInv (odd (markers pre)) (interp cj)
          else captured net (valOf net order (initCol (mapsPure .spec c fl) p)) (c.cellRow x))) := by
   obtain ⟨n, _, _, hlt⟩ := row_node hcompat hxin
-  have := loc_transition c fl _ M i p _ ch pre post x s cj hok hp (nxtOf_get hp) hch hmid hx hxin hnd hs hcj
+  have := loc_transition c fl _ M i p _ ch pre post x s cj hok hp (nxtOf_get hp) hch hmid hx hxin hnd hports hs hcj
   rwa [simRow_getD _ _ _ _ _ _ hlt] at this
 
 /-- **tests_loc_end_to_end (flip-flops).** For every well-formed netlist and topological order, every chain / marker / pattern
@@ -520,6 +533,7 @@ theorem tests_loc_end_to_end (c : Circ) (fl : File) (net : Net) (names : List St
     (hok : testsLoc .spec c fl (nxtOf c fl net order) = .ok M) (hp : (extract fl)[i]? = some p)
     (hch : ch ∈ fl.chains) (hmid : ch.mid = pre ++ x :: post) (hx : isMark x = false) (hxin : x ∈ c.sNodes)
     (hnd : ((mapsPure .spec c fl).scanRows ++ (mapsPure .spec c fl).pi ++ (mapsPure .spec c fl).po).Nodup)
+    (hports : fl.portsOK = true)
     (hs : p.load.lookup ch.si = some s) (hcj : s[(cellsOf post).length]? = some cj)
     (hσ : NetConsistent net order specNot prim8 (envOf net (initCol (mapsPure .spec c fl) p)) σ)
     (hn : net.sNodes[c.cellRow x]? = some n) (hl : (net.node n).inPin 0 = some l) :
@@ -527,7 +541,7 @@ theorem tests_loc_end_to_end (c : Circ) (fl : File) (net : Net) (names : List St
       col[c.cellRow x]? = some (mvTransition (invLoad (odd (markers pre)) (interp cj))
         (if noLaunchPulse p then xorInv (odd (markers pre)) (interp cj) else σ l)) := by
   obtain ⟨col, h1, h2, h3⟩ := tests_loc_rows c fl net names order M i p ch pre post x s cj hcompat hok hp hch hmid hx hxin
-    hnd hs hcj
+    hnd hports hs hcj
   obtain ⟨n', hn', hname, _⟩ := row_node hcompat hxin
   rw [hn] at hn'; injection hn' with hn'; subst hn'
   refine ⟨col, h1, h2, hname, ?_⟩
@@ -541,6 +555,7 @@ theorem tests_loc_end_to_end_open (c : Circ) (fl : File) (net : Net) (names : Li
     (hok : testsLoc .spec c fl (nxtOf c fl net order) = .ok M) (hp : (extract fl)[i]? = some p)
     (hch : ch ∈ fl.chains) (hmid : ch.mid = pre ++ x :: post) (hx : isMark x = false) (hxin : x ∈ c.sNodes)
     (hnd : ((mapsPure .spec c fl).scanRows ++ (mapsPure .spec c fl).pi ++ (mapsPure .spec c fl).po).Nodup)
+    (hports : fl.portsOK = true)
     (hs : p.load.lookup ch.si = some s) (hcj : s[(cellsOf post).length]? = some cj)
     (hn : net.sNodes[c.cellRow x]? = some n) (hl : (net.node n).inPin 0 = none)
     (hst : net.io.length ≤ c.cellRow x) :
@@ -548,7 +563,7 @@ theorem tests_loc_end_to_end_open (c : Circ) (fl : File) (net : Net) (names : Li
       col[c.cellRow x]? = some (mvTransition (invLoad (odd (markers pre)) (interp cj))
         (if noLaunchPulse p then xorInv (odd (markers pre)) (interp cj) else V3.zero)) := by
   obtain ⟨col, h1, h2, h3⟩ := tests_loc_rows c fl net names order M i p ch pre post x s cj hcompat hok hp hch hmid hx hxin
-    hnd hs hcj
+    hnd hports hs hcj
   exact ⟨col, h1, h2, by rw [h3, captured_open_state hn hl hst]⟩
 
 /-- **tests_loc_end_to_end (inputs).** For the `k`-th member `x` of `_pi`, as in `loc_transition_input`; without a capture
@@ -561,6 +576,7 @@ theorem tests_loc_end_to_end_input (c : Circ) (fl : File) (net : Net) (names : L
     (hok : testsLoc .spec c fl (nxtOf c fl net order) = .ok M) (hp : (extract fl)[i]? = some p)
     (hk : (group fl "_pi")[k]? = some x) (hxin : x ∈ c.sNodes)
     (hnd : ((mapsPure .spec c fl).scanRows ++ (mapsPure .spec c fl).pi ++ (mapsPure .spec c fl).po).Nodup)
+    (hports : fl.portsOK = true)
     (hci : (initPiStr p)[k]? = some ci) (hcc : capturePulse p = true → (str p.capture "_pi")[k]? = some cc)
     (hσ : NetConsistent net order specNot prim8 (envOf net (initCol (mapsPure .spec c fl) p)) σ)
     (hn : net.sNodes[c.portRow x]? = some n) (hio : c.portRow x < net.io.length) :
@@ -572,7 +588,7 @@ theorem tests_loc_end_to_end_input (c : Circ) (fl : File) (net : Net) (names : L
           | none => V3.unassigned)) := by
   obtain ⟨n', hn', hname, hlt⟩ := row_node_port hcompat hxin
   rw [hn] at hn'; injection hn' with hn'; subst hn'
-  obtain ⟨col, h1, h2, h3⟩ := loc_transition_input c fl _ M i p _ k x ci cc hok hp (nxtOf_get hp) hk hxin hnd hci hcc
+  obtain ⟨col, h1, h2, h3⟩ := loc_transition_input c fl _ M i p _ k x ci cc hok hp (nxtOf_get hp) hk hxin hnd hports hci hcc
   refine ⟨col, h1, h2, hname, ?_⟩
   rw [h3, simRow_getD _ _ _ _ _ _ hlt]
   cases hl : (net.node n).inPin 0 with
@@ -633,14 +649,14 @@ example : responses .spec exC exF = .ok exResp := by decide +kernel
 example : ∃ col, exTests[0]? = some col ∧ exC.sNodes[exC.cellRow "f1"]? = some "f1" ∧
     col[exC.cellRow "f1"]? = some (invLoad (odd (markers ["!", "f0", "!", "!"])) (interp '0')) :=
   load_pos exC exF exTests 0 exP exChain ["!", "f0", "!", "!"] ["f2", "!"] "f1" "10-".toList '0'
-    (by decide +kernel) (by decide +kernel) (by decide +kernel) (by decide +kernel) (by decide +kernel)
+    (by decide +kernel) (by decide +kernel) (by decide +kernel) (by decide +kernel) (by decide +kernel) (by decide +kernel)
     (by decide +kernel) (by decide +kernel) (by decide +kernel) (by decide +kernel)
 example : exC.cellRow "f1" = 5 ∧ invLoad (odd (markers ["!", "f0", "!", "!"])) (interp '0') = V3.one := by
   decide +kernel
 example : ∃ col, exResp[0]? = some col ∧ exC.sNodes[exC.cellRow "f1"]? = some "f1" ∧
     col[exC.cellRow "f1"]? = some (xorInv (odd (markers ["f2", "!"])) (interp 'H')) :=
   unload_pos exC exF exResp 0 exP exChain ["!", "f0", "!", "!"] ["f2", "!"] "f1" "LHX".toList 'H'
-    (by decide +kernel) (by decide +kernel) (by decide +kernel) (by decide +kernel) (by decide +kernel)
+    (by decide +kernel) (by decide +kernel) (by decide +kernel) (by decide +kernel) (by decide +kernel) (by decide +kernel)
     (by decide +kernel) (by decide +kernel) (by decide +kernel) (by decide +kernel)
 example : xorInv (odd (markers ["f2", "!"])) (interp 'H') = V3.zero := by decide +kernel
 example : ((mapsPure .spec exC exF).scanRows ++ (mapsPure .spec exC exF).pi ++ (mapsPure .spec exC exF).po).Nodup := by
@@ -653,18 +669,18 @@ example : ∃ col, exLoc[0]? = some col ∧ exC.sNodes[exC.cellRow "f1"]? = some
       (if noLaunchPulse exP then xorInv (odd (markers ["!", "f0", "!", "!"])) (interp '0')
        else ([2, 2, 0, 3, 3, 3, 3, 0].map v).getD (exC.cellRow "f1") V3.unknown)) :=
   loc_transition exC exF exNxt exLoc 0 exP ([2, 2, 0, 3, 3, 3, 3, 0].map v) exChain ["!", "f0", "!", "!"] ["f2", "!"] "f1"
-    "10-".toList '0' (by decide +kernel) (by decide +kernel) (by decide +kernel) (by decide +kernel) (by decide +kernel)
+    "10-".toList '0' (by decide +kernel) (by decide +kernel) (by decide +kernel) (by decide +kernel) (by decide +kernel) (by decide +kernel)
     (by decide +kernel) (by decide +kernel) (by decide +kernel) (by decide +kernel) (by decide +kernel)
 /-- hypotheses of `pi_po_map` / `loc_transition_input` hold for input `a` (second member of the shuffled group `_pi`) -/
 example : ∃ col, exTests[0]? = some col ∧ exC.sNodes[exC.portRow "a"]? = some "a" ∧
     col[exC.portRow "a"]? = some (interp 'P') :=
-  pi_po_map exC exF exTests 0 exP 1 "a" "1P".toList 'P' (by decide +kernel) (by decide +kernel) (by decide +kernel)
+  pi_po_map exC exF exTests 0 exP 1 "a" "1P".toList 'P' (by decide +kernel) (by decide +kernel) (by decide +kernel) (by decide +kernel)
     (by decide +kernel) (by decide +kernel) (by decide +kernel) (by decide +kernel)
 example : ∃ col, exLoc[0]? = some col ∧ exC.sNodes[exC.portRow "si"]? = some "si" ∧
     col[exC.portRow "si"]? = some (mvTransition (interp '0')
       (if capturePulse exP then interp '1' else ([2, 2, 0, 3, 3, 3, 3, 0].map v).getD (exC.portRow "si") V3.unknown)) :=
   loc_transition_input exC exF exNxt exLoc 0 exP ([2, 2, 0, 3, 3, 3, 3, 0].map v) 0 "si" '0' '1'
-    (by decide +kernel) (by decide +kernel) (by decide +kernel) (by decide +kernel) (by decide +kernel)
+    (by decide +kernel) (by decide +kernel) (by decide +kernel) (by decide +kernel) (by decide +kernel) (by decide +kernel)
     (by decide +kernel) (by decide +kernel) (fun _ => by decide +kernel)
 example : mvTransition (interp '0') (interp '1') = rise := by decide +kernel
 
@@ -708,7 +724,7 @@ example : ∃ col, e2eLoc[0]? = some col ∧ e2eC.sNodes[e2eC.cellRow "f1"]? = s
   tests_loc_end_to_end e2eC e2eF e2eNet e2eNames e2eOrder e2eLoc 0 e2eP e2eChain ["f0", "!"] [] "f1" "01".toList '0' _ 3 3
     e2e_hyps.1 e2e_hyps.2.1 e2e_hyps.2.2.1 e2e_hyps.2.2.2 e2e_loc (by decide +kernel) (by decide +kernel)
     (by decide +kernel) (by decide +kernel) (by decide +kernel) (by decide +kernel) (by decide +kernel) (by decide +kernel)
-    (loc_labelling_unique e2eNet e2eOrder e2e_hyps.1 e2e_hyps.2.1 e2e_hyps.2.2.1 _).1 (by decide +kernel) (by decide +kernel)
+    (by decide +kernel) (loc_labelling_unique e2eNet e2eOrder e2e_hyps.1 e2e_hyps.2.1 e2e_hyps.2.2.1 _).1 (by decide +kernel) (by decide +kernel)
 example : mvTransition (invLoad (odd (markers ["f0", "!"])) (interp '0'))
     (valOf e2eNet e2eOrder (initCol (mapsPure .spec e2eC e2eF) e2eP) 3) = fall := by decide +kernel
 /-- the assignment the simulator was given: `f1` = 1 (loaded 0 behind one marker), `a` = 0 (second member of `_pi`) -/
@@ -724,7 +740,7 @@ example : ∃ col, e2eLoc[0]? = some col ∧ e2eC.sNodes[e2eC.portRow "a"]? = so
         | none => V3.unassigned)) :=
   tests_loc_end_to_end_input e2eC e2eF e2eNet e2eNames e2eOrder e2eLoc 0 e2eP 1 "a" '0' '1' _ 0
     e2e_hyps.1 e2e_hyps.2.1 e2e_hyps.2.2.1 e2e_hyps.2.2.2 e2e_loc (by decide +kernel) (by decide +kernel)
-    (by decide +kernel) (by decide +kernel) (by decide +kernel) (fun _ => by decide +kernel)
+    (by decide +kernel) (by decide +kernel) (by decide +kernel) (by decide +kernel) (fun _ => by decide +kernel)
     (loc_labelling_unique e2eNet e2eOrder e2e_hyps.1 e2e_hyps.2.1 e2e_hyps.2.2.1 _).1 (by decide +kernel) (by decide +kernel)
 
 /-- hypotheses of `nxtOf_memory` on the example (capacity 1 everywhere): the initial memory holds the stimulus in the input
@@ -871,5 +887,15 @@ example :
       [⟨[("si0", "01".toList)], [("_pi", "0P".toList)], [("_po", "LH".toList)], [("so0", "HL".toList)]⟩,
        ⟨[("si0", "1-".toList)], [], [("_pi", "11".toList)], [("so0", "XX".toList)]⟩] := by decide +kernel
 end extract
+
+/-- the auditor's witness (audit 2, A-C18-1): two chains sharing the scan-in port `si` — `hnd` holds, `portsOK` does not: the
+positional theorems do not apply (the real `tests` leaves `f0` untouched, the list-walking model writes both chains) -/
+theorem shared_scan_port_outside :
+    let c : Circ := ⟨["si", "a", "so1", "so2"], [("si","__fork__"),("a","__fork__"),("so1","__fork__"),("so2","__fork__"),
+      ("f0","DFF"),("f1","DFF"),("so1","BUF"),("so2","BUF")]⟩
+    let fl : File := ⟨[("_pi", ["si","a"]), ("_po", ["so1","so2"])], [⟨"si", ["f0"], "so1"⟩, ⟨"si", ["f1"], "so2"⟩],
+      [⟨"load_unload", [("si", "1".toList)]⟩, ⟨"x_capture", [("_pi", "00".toList), ("_po", "LL".toList)]⟩,
+       ⟨"load_unload", [("so1","L".toList),("so2","L".toList)]⟩]⟩
+    ((mapsPure .spec c fl).scanRows ++ (mapsPure .spec c fl).pi).Nodup ∧ fl.portsOK = false := by decide +kernel
 
 end KV.C18
